@@ -86,6 +86,9 @@ def r_label_recovery(repo, rep, R='R12.4'):
     deco = [src(d) for d in fn.decorator_list]
     rep.check(not mutated and not deco, R, w, 'guess:pure', 'guess_combinator_by_triplet keeps no state between calls (no memo, no decorator)',
               'guess_combinator_by_triplet modifies %s / is decorated with %s: the label of a node would depend on earlier calls' % (sorted(mutated), deco))
+    # ... and total: the readers call it for every binary node of a file, whatever the categories are (an atom has no
+    # .left / .right / .slash)
+    ru.r_shape_safety(repo, rep, mod, fn, R)
     unk = [st.ret for st, out in paths if out == 'return' and st.ret and st.ret[0] == 'call' and st.ret[1] == N('CombinatorResult')]
     ok = bool(unk) and all(argof(u, 'cat', 0) == N(target) for u in unk)
     rep.check(ok, R, w, 'guess:unk-cat', 'the unknown result keeps the node\'s own category', 'the <unk> result does not carry the target category')
